@@ -331,6 +331,10 @@ def normalise(fs):
     if subs:
         fs = [z3.simplify(z3.substitute(f, *subs)) for f in fs]
     sums = collect_sums(fs)
+    if sums and _sum_under_quantifier(fs):
+        # a quantified fact speaks about sums with a bound argument: keep the sum terms as uninterpreted applications
+        # (replacing the closed ones by constants would cut them off from the instances of that fact)
+        sums = []
     if sums:
         pairs = [(t, z3.Const('sum!%d' % k, t.sort())) for k, t in enumerate(sums)]
         fs = [z3.substitute(f, *pairs) for f in fs]     # top-down: outermost terms first
@@ -338,8 +342,46 @@ def normalise(fs):
     return fs
 
 
+_sk = [0]
+
+
+def skolemise_goal(goal):
+    """a universally quantified goal is proved for fresh constants (so that sums over the bound variable get unfolded)"""
+    g = goal
+    for _ in range(4):
+        if z3.is_quantifier(g) and g.is_forall():
+            consts = []
+            for i in range(g.num_vars()):
+                _sk[0] += 1
+                consts.append(z3.Const('sk!%d!%s' % (_sk[0], g.var_name(i)), g.var_sort(i)))
+            # de-Bruijn order: variable 0 is the innermost (last) bound variable
+            g = z3.substitute_vars(g.body(), *reversed(consts))
+        else:
+            break
+    return g
+
+
+def _sum_under_quantifier(fs):
+    seen = set()
+
+    def go(x, inq):
+        k = (x.get_id(), inq)
+        if k in seen:
+            return False
+        seen.add(k)
+        if z3.is_quantifier(x):
+            return go(x.body(), True)
+        if z3.is_app(x):
+            d = x.decl()
+            if inq and (d.eq(SumI) or d.eq(SumR) or d.eq(MaxR)) and not _closed(x):
+                return True
+            return any(go(c, inq) for c in x.children())
+        return False
+    return any(go(f, False) for f in fs)
+
+
 def query_formulas(ob, fuel=1):
-    neg = z3.Not(ob.goal)
+    neg = z3.Not(skolemise_goal(z3.simplify(ob.goal)))
     base = [z3.simplify(f) for f in list(ob.pc) + [neg]]
     lower = 'no-rmax-lower' not in (ob.hints or [])
     ax = unfold_all(base, fuel, lower)
